@@ -236,3 +236,13 @@ Definition dict_set {A} (d : dict A) (k : string) (v : A) : dict A := (k, v) :: 
 Definition dict_update {A} (d d' : dict A) : dict A := (d' ++ d)%list.
 (* {k: v for ..} built from its items in iteration order *)
 Definition dict_of_items {A} (items : list (string * A)) : dict A := rev items.
+
+(* ================================================================== the line front end: pinned texts.
+   The regex of fortran_namelist.define_element that Parse/Lines.v [define_header true] is a model of (F40 repaired: white space
+   allowed between the element type and the first comma).  re.fullmatch itself stays an opaque primitive (tested by C13). *)
+Definition define_element_pattern_fixed : string := "([a-z0-9_\.]+)\s*\:\s*([a-z0-9_]+)\s*(\,(.*))?".
+(* merge_delimiter_continued_lines is NOT translated (index arithmetic on a list with holes; Parse/Lines.v [merge_fixed] is its
+   hand transcription as a list traversal, argued in the header of Lines.v and tested by C13).  Pinned instead: the sha256 of the
+   function's AST (docstring and annotations removed, local names numbered) for the text that [merge_fixed] transcribes (F41
+   repaired: `while merged_lines[i].endswith(delimiter) and i + num_added_lines < len(merged_lines)`). *)
+Definition merge_delimiter_continued_lines_ast_sha256_fixed : string := "ade480cd79dc76ac7ca9f8312699f0178f7e35a1cd31bb166336c07f06d36ed4".
